@@ -83,6 +83,10 @@ def body(shape, name, k, edit=None):
         lit = ["aaaaaaaaaaaaaaaaaaaaaaaaaaaaaaaa", "Zq8#xL1@pV0$kW9!mR7^tY2&uE5*iO3(", "abababababababababababababababab",
                "7fK2@9xQ!vB4#mZ8$wN1%cH6^jT3&rD5"][k % 4]
         return ("func %s(s string) int {\n%s\tif s == \"%s\" {\n\t\treturn 1\n\t}\n\treturn len(s) %s 2\n}\n" % (name, extra, lit, op))
+    if shape == "indep":        # two independent pure statements; edit "swap" exchanges them (same behaviour,
+        one, two = "\tx := a * %d\n" % (k2 + 2), "\ty := b %s %d\n" % (op, k + 3)     # other register numbering)
+        first, second = (two, one) if edit == "swap" else (one, two)
+        return "func %s(a, b int) int {\n%s%s%s\treturn x - y\n}\n" % (name, extra, first, second)
     if shape == "arith":
         return ("func %s(a, b int) int {\n%s\tx := a*%d %s b\n\ty := x - %d\n\treturn x*y + %d\n}\n"
                 % (name, extra, k2 + 2, op, k + 1, k))
